@@ -10,7 +10,7 @@ import C18
 N = {"quick": 6000, "thorough": 200000}
 MODEL_OPS = {"KR", "KO", "KT", "KM", "LP", "LD", "SJ", "SD", "DS", "DP"}
 # the implementation-only streams: result -> is it a violation of the property?
-ORACLE_OK = {"RT": {"ok"}, "RZ": {"ok"}, "MJ": {"rejected"}, "SB": {"ok"}, "FZ": {"error", "value"}, "AB": {"rejected"}, "SU": {"ok", "rejected-on-the-wire"}}
+ORACLE_OK = {"RT": {"ok"}, "RZ": {"ok"}, "MJ": {"rejected"}, "SB": {"ok"}, "FZ": {"error", "value"}, "FJ": {"error", "value"}, "AB": {"rejected"}, "SU": {"ok", "rejected-on-the-wire"}}
 
 
 def run(a):
@@ -65,7 +65,7 @@ def run(a):
             continue
         if kind in MODEL_OPS:
             head = r.split(" ")[0]
-            if head in ("COLLISION", "key-outside-the-validator-prefix", "ORDER-DISAGREES-WITH-TIME", "NOT-CANONICAL", "frame-is-not-prefix++bare") or "back=false" in r:
+            if head in ("VERIFIER-SIGNS-OTHER-BYTES", "error-decoding-the-transaction", "COLLISION", "key-outside-the-validator-prefix", "ORDER-DISAGREES-WITH-TIME", "NOT-CANONICAL", "frame-is-not-prefix++bare") or "back=false" in r:
                 oracle_bad += 1
                 v.violation({"engine": "codec", "stream": kind, "kind": head}, "case `%s`: %s" % (op[:200], r), {"op": op, "impl": r, "seed": a.seed, "case": ident})
                 continue
